@@ -11,6 +11,7 @@ plain integer arithmetic over (options, available size, observed sizes); it neve
 from __future__ import annotations
 
 import itertools
+import math
 import traceback
 import warnings
 from collections import Counter
@@ -101,13 +102,13 @@ REQUIRE = {
     "col.focus_dependent_pack_focus_column_container_focus_True": 400,
     "col.focus_dependent_pack_path_flow": 1000,
     "col.focus_dependent_pack_path_fixed": 1200,
-    "pile.focus_dependent_pack_measured": 600,
-    "pile.focus_dependent_pack_nonfocus_item_container_focus_True": 200,
-    "pile.focus_dependent_pack_focus_item_container_focus_True": 80,
+    "pile.focus_dependent_pack_measured": 300,
+    "pile.focus_dependent_pack_nonfocus_item_container_focus_True": 100,
+    "pile.focus_dependent_pack_focus_item_container_focus_True": 50,
     "ovl.directed_fixed_top_cases": 3200,
     "ovl.directed_fixed_top_overflowing_both_axes": 800,
-    "ovl.clipped_on_both_axes_position_checked": 700,
-    "ovl.clipped_on_one_axis_position_checked": 2000,
+    "ovl.clipped_on_both_axes_position_checked": 600,
+    "ovl.clipped_on_one_axis_position_checked": 1500,
     "grid.directed_live_cases": 2200,
     "grid.live_histories_judged": 2200,
     "grid.live_op_cw": 2200,
@@ -124,6 +125,16 @@ REQUIRE = {
     "pile.pack_fixed_only_item_measured": 100,
     "regress.29070bd_all_zero_weights": 27,
     "regress.4cbc3a6_flow_top_wrapping_at_own_width": 180,
+    "padfixed.directed_cases": 3800,
+    "padfixed.evals": 3000,
+    "padfixed.cl_canvas_width==pack": 3000,
+    "padfixed.cl_total_width": 3000,
+    "padfixed.cl_sum_exact": 3000,
+    "padfixed.cl_split_by_percentage": 3000,
+    "padfixed.min_width_widens_total": 1500,
+    "padfixed.child_sizes_observed": 1800,
+    "padfixed.canvas_position_checked": 1800,
+    "padfixed.documented_error_clip_is_flow_only": 700,
     "grid.directed_core_cases": 800,
     "grid.directed_wrap_window_cases": 140,
     "grid.evals": 500,
@@ -141,7 +152,7 @@ RULE = (
     "random beyond (<=7 columns, sizes to 30, float and zero weights, zero given, box_columns flags, flow/fixed/box spy sizings, maxcol "
     "to 80). Pile: same scheme over <=4 items x {given 1..6, pack spy rows 1..6, weight 1..3} x maxrow 1..24. Padding / Filler / "
     "Overlay: align kinds {left,center,right,relative 0,1,33,50,67,99,100} x size kinds {given, relative, pack, clip} x min sizes x "
-    "margins 0..3 x available 1..24, random beyond. Live histories: random sequences of size / focus_position / contents[i]= / box_columns= on one Columns or box Pile, all clauses re-judged after every operation. Overlay fixed tops: a deterministic core of 3200 width='pack' top widgets of (cols-1, cols, cols+1, cols+5) x (rows-1, rows, rows+1, rows+4) over (4,3) and (7,5), every align x valign kind, margins; a clipped top that cannot be rendered or is not drawn between the margins is a violation. GridFlow live histories: a cell is given its own width, optionally the grid is rendered, then cell_width is assigned (same value or another); the model follows the documented rule 'setting cell_width affects all cells' and is never read back from urwid (2304 directed cases + random ops setw/cw/render/focus). Wrapping PACK items: 630 box Piles with weighted items and a PACK item of natural width 3/9/19 at Pile widths 1..20 in every sizing set (FLOW-only, FIXED-only, FIXED+FLOW, BOX+FLOW+FIXED spies with pack(())==(nat,1), rows((w,))==ceil(nat/w), and a real urwid.Text); own rows = rows((maxcol,)) when the widget supports FLOW, else pack(())[1]. Regression core: one directed case per case named in the `fixed: property=C19` lines. Focus-dependent children: a deterministic core of 2496 Columns + 312 box Pile cases with pack spies whose pack()/rows() answer depends on the focus argument (FIXED and FLOW measuring paths) x every focus position x container focus flag; own size = the spy's answer for the focus flag it is rendered with. GridFlow: directed core first (1..5 cells x cell width 1..5 x h_sep 0..2 x every maxcol from 1 to two past the one-line width, deterministic, not time-limited; a second directed core of non-uniform grids with one or two cells reconfigured through contents[i] = (w, options(width_amount=N)) / ('given', N), each cell judged at its own configured width), then 1..8 cells x cell width x separators x align x maxcol, glyph boxes read "
+    "margins 0..3 x available 1..24, random beyond. Live histories: random sequences of size / focus_position / contents[i]= / box_columns= on one Columns or box Pile, all clauses re-judged after every operation. Overlay fixed tops: a deterministic core of 3200 width='pack' top widgets of (cols-1, cols, cols+1, cols+5) x (rows-1, rows, rows+1, rows+4) over (4,3) and (7,5), every align x valign kind, margins; a clipped top that cannot be rendered or is not drawn between the margins is a violation. GridFlow live histories: a cell is given its own width, optionally the grid is rendered, then cell_width is assigned (same value or another); the model follows the documented rule 'setting cell_width affects all cells' and is never read back from urwid (2304 directed cases + random ops setw/cw/render/focus). Wrapping PACK items: 630 box Piles with weighted items and a PACK item of natural width 3/9/19 at Pile widths 1..20 in every sizing set (FLOW-only, FIXED-only, FIXED+FLOW, BOX+FLOW+FIXED spies with pack(())==(nat,1), rows((w,))==ceil(nat/w), and a real urwid.Text); own rows = rows((maxcol,)) when the widget supports FLOW, else pack(())[1]. Regression core: one directed case per case named in the `fixed: property=C19` lines. Padding FIXED render: 3840 deterministic cases of Padding rendered with size () for width in {pack, clip, given 2/6, relative 30/50/100} x min_width in {None, below, equal to, above the child} x 4 margin pairs x every align kind, fixed spy and real BigText children: canvas width == pack(())[0] == max(child, min_width or 1) + margins, left + child + right == canvas width, spare split by the alignment, child drawn between the margins; clip must raise the documented PaddingError. Focus-dependent children: a deterministic core of 2496 Columns + 312 box Pile cases with pack spies whose pack()/rows() answer depends on the focus argument (FIXED and FLOW measuring paths) x every focus position x container focus flag; own size = the spy's answer for the focus flag it is rendered with. GridFlow: directed core first (1..5 cells x cell width 1..5 x h_sep 0..2 x every maxcol from 1 to two past the one-line width, deterministic, not time-limited; a second directed core of non-uniform grids with one or two cells reconfigured through contents[i] = (w, options(width_amount=N)) / ('given', N), each cell judged at its own configured width), then 1..8 cells x cell width x separators x align x maxcol, glyph boxes read "
     "off the canvas. A case = (container, options, focus, available size); distinct = distinct (options, focus) tuples for the two "
     "exhaustive cores and distinct full descriptors elsewhere; beyond 250k distinct descriptors per shard further cases are evaluated but not de-duplicated (counter cases_beyond_distinct_cap_not_deduplicated); *.shards_complete counters tell how many shards finished their slice of each enumeration in the time budget; non-trivial = the real code was executed and judged (cases for which "
     "urwid emits a WidgetWarning are counted as skipped_invalid, not as evaluations)"
@@ -1065,6 +1076,99 @@ def case_padding(d, obs):
         obs.fail(f"C19|Padding|render|child-drawn-though-no-room|{shape}", f"glyph box {box} margins {left},{right}")
 
 
+def case_padfixed(d, obs):
+    """Padding rendered as a FIXED widget (size ()): the available width is the width Padding itself claims with pack(());
+    canvas width == pack(())[0] == the documented total, left + child + right == canvas width, fixed margins kept,
+    spare split by the alignment, child drawn between the margins"""
+    urwid = U()
+    width = d["width"]
+    wk = kind_name(width)
+    minw, fl, fr = d["minw"], d["left"], d["right"]
+    kind, pw, ph = d["child"][0], d["child"][1], d["child"][2]
+    shape = f"fixed-render|width={wk}" + ("|min_width" if minw is not None else "")
+    if wk == "relative" and width[1] > 100:
+        # a FIXED render cannot make the widget narrower than the child it draws unclipped: a relative width above 100%
+        # (child wider than the whole) has no meaning here; not judged
+        obs.c["padfixed.relative_above_100_not_judged"] += 1
+        return
+    if kind == "big":
+        ch = urwid.BigText("1" * pw, urwid.Thin3x3Font())
+        cw_nat = ch.pack(())[0]
+        spies = []
+    else:
+        ch = spy("t", "l" if wk == "given" else "x", pw=pw, ph=ph)
+        cw_nat = pw
+        spies = [ch]
+    try:
+        P = urwid.Padding(ch, py_align(d["align"]), py_align(width), minw, fl, fr)
+        if wk == "clip":
+            try:
+                P.render((), False)
+            except urwid.widget.padding.PaddingError:
+                obs.c["padfixed.documented_error_clip_is_flow_only"] += 1
+                return
+            obs.c["padfixed.evals"] += 1
+            obs.fail(f"C19|Padding|fixed-render|clip-rendered-fixed-without-documented-error|{shape}", "no PaddingError")
+            return
+        claimed = P.pack((), False)
+        lr = P.padding_values((), False)
+        for sp in spies:
+            sp.reset()
+        canv = P.render((), False)
+        rows = text_rows(canv)
+        ccols = canv.cols()
+    except WidgetWarning:
+        obs.c["skipped_invalid"] += 1
+        return
+    except Exception as e:  # noqa: BLE001
+        obs.c["padfixed.evals"] += 1
+        obs.fail(f"C19|Padding|fixed-render|raise:{type(e).__name__}|{shape}", f"{type(e).__name__}: {e}\n{tb()}")
+        return
+    obs.c["padfixed.evals"] += 1
+    flush_spies(obs, spies, "Padding-fixed")
+    # the documented total: child (given: the given width) widened to min_width (at least 1), plus the fixed margins
+    if wk == "given":
+        child = width
+        inner = (max(width, minw or 1),) * 2
+    elif wk == "pack":
+        child = cw_nat
+        inner = (max(cw_nat, minw or 1),) * 2
+    else:
+        child = cw_nat
+        x = cw_nat * 100 / width[1]
+        inner = (max(math.floor(x), minw or 1), max(math.ceil(x), minw or 1))
+    obs.c["padfixed.cl_canvas_width==pack"] += 1
+    if ccols != claimed[0]:
+        obs.fail(f"C19|Padding|fixed-render|canvas-width!=pack()|{shape}", f"canvas {ccols} columns, pack(()) says {claimed}")
+    obs.c["padfixed.cl_total_width"] += 1
+    if not inner[0] + fl + fr <= ccols <= inner[1] + fl + fr:
+        obs.fail(f"C19|Padding|fixed-render|total-width!=max(child,min_width)+margins|{shape}", f"canvas {ccols} columns, expected {inner[0] + fl + fr}..{inner[1] + fl + fr} (child {child}, min_width {minw}, margins {fl},{fr})")
+        return
+    if spies:
+        if len(ch.rendered) != 1:
+            obs.fail(f"C19|Padding|fixed-render|child-not-rendered-exactly-once|{shape}", f"{ch.rendered}")
+            return
+        got = ch.rendered[0]
+        if (wk == "given" and got != (width,)) or (wk != "given" and got != ()):
+            obs.fail(f"C19|Padding|fixed-render|child-handed-wrong-size|{shape}", f"{got}")
+            return
+        obs.c["padfixed.child_sizes_observed"] += 1
+    if not (isinstance(lr, tuple) and len(lr) == 2 and is_int(lr[0]) and is_int(lr[1])):
+        obs.fail(f"C19|Padding|fixed-render|padding_values-bad-shape|{shape}", repr(lr))
+        return
+    left, right = lr
+    before = len(obs.fails)
+    judge_axis(obs, "padfixed", "Padding|fixed-render|h", ccols, fl, fr, align_pct(d["align"]), (child, child), left, right, child, False, shape)
+    if inner[0] > child:
+        obs.c["padfixed.min_width_widens_total"] += 1
+    if len(obs.fails) > before or not spies:
+        return
+    obs.c["padfixed.canvas_position_checked"] += 1
+    box, filled = bbox(rows, "t")
+    if box is None or not filled or (box[0], box[1]) != (left, left + child):
+        obs.fail(f"C19|Padding|fixed-render|child-not-drawn-between-margins|{shape}", f"glyph box {box} filled={filled} expected columns {left}..{left + child} margins {left},{right}")
+
+
 # --------------------------------------------------------------------------- Filler
 
 
@@ -1543,6 +1647,7 @@ def case_entries(d, obs):
 
 
 CASES = {
+    "padfixed": case_padfixed,
     "entries": case_entries,
     "live": case_live,
     "columns": case_columns,
@@ -1621,7 +1726,7 @@ def _cands(d):
                             nd[key] = nl
                             yield nd
     if "child" in d:
-        for j in (1, 2, 3):
+        for j in range(1, min(4, len(d["child"]))):
             v = d["child"][j]
             if is_int(v) and v > 1:
                 nd = dict(d)
@@ -2227,6 +2332,36 @@ def overlay_directed_fixed(ctx, obs):
                 obs.c["ovl.directed_fixed_top_overflowing_both_axes"] += 1
 
 
+def padding_fixed_directed(ctx, obs):
+    """deterministic core, not time-limited: Padding rendered FIXED for width in {pack, clip, given n, relative p} x min_width in
+    {None, < child, == child, > child} x margins x align, fixed children (spy, real BigText)"""
+    idx = 0
+    margins = [(0, 0), (1, 0), (0, 2), (2, 1)]
+    for (kind, pw), width, al, (fl, fr) in itertools.product(
+        (("x", 1), ("x", 4), ("big", 1), ("big", 2)), ("pack", "clip", 2, 6, ["relative", 30], ["relative", 50], ["relative", 100]), ALIGNS, margins
+    ):
+        cw = pw if kind == "x" else 3 * pw  # Thin3x3 glyphs are 3 columns wide (only used to pick min_width around the child)
+        base = width if isinstance(width, int) else cw
+        for minw in (None, max(base - 1, 1), base, base + 3):
+            idx += 1
+            if not ctx.mine(idx):
+                continue
+            if isinstance(width, int) and kind == "big":
+                continue  # a given width needs a flow child
+            d = {"k": "padfixed", "align": al, "width": width, "minw": minw, "left": fl, "right": fr, "child": [kind, pw, 2 if kind == "x" else 3]}
+            run_desc(ctx, obs, d)
+            obs.c["padfixed.directed_cases"] += 1
+
+
+def rand_padfixed(rng):
+    kind = rng.choice(["x", "x", "big"])
+    width = rng.choice(["pack", "pack", "clip", rng.randint(1, 12), ["relative", rng.choice([10, 30, 50, 75, 100, 100, 150])]])
+    if isinstance(width, int):
+        kind = "x"
+    return {"k": "padfixed", "align": rand_axis(rng, ALIGNS), "width": width, "minw": rng.choice([None, 1, 2, 4, 7, 12]), "left": rng.randint(0, 5),
+            "right": rng.randint(0, 5), "child": [kind, rng.randint(1, 9) if kind == "x" else rng.randint(1, 3), rng.randint(1, 3)]}  # fmt: skip
+
+
 def rand_overlay(rng):
     def k(allow_pack):
         r = rng.random()
@@ -2401,6 +2536,7 @@ def run(ctx):
     gridflow_directed_nonuniform(ctx, obs)
     gridflow_directed_live(ctx, obs)
     overlay_directed_fixed(ctx, obs)
+    padding_fixed_directed(ctx, obs)
     entry_sweep(ctx, obs)
     focus_dep_sweep(ctx, obs)
     pile_wrap_sweep(ctx, obs)
@@ -2422,7 +2558,8 @@ def run(ctx):
     random_until(ctx, obs, rand_pile, 0.58, "pile.random_cases")
     merge_counts(ctx, obs)
     padding_exhaustive(ctx, obs, 0.66)
-    random_until(ctx, obs, rand_padding, 0.69, "pad.random_cases")
+    random_until(ctx, obs, rand_padding, 0.68, "pad.random_cases")
+    random_until(ctx, obs, rand_padfixed, 0.69, "padfixed.random_cases", at_least=30)
     filler_exhaustive(ctx, obs, 0.74)
     random_until(ctx, obs, rand_filler, 0.77, "fill.random_cases")
     merge_counts(ctx, obs)
